@@ -8,6 +8,8 @@ import checklib
 def decode(p):
     f = p.split(" ")
     try:
+        if f[0] == "M":
+            return {"source": bytes.fromhex(f[1]).decode("utf8", "replace"), "evaluated_in_turn_under": f[-1].split("|")}
         return {"source": bytes.fromhex(f[0]).decode("utf8", "replace") if f[0] != "-" else ""}
     except Exception:
         return p
@@ -23,16 +25,31 @@ def extract(ctx):
     p = subprocess.run([binp, "C03", "-tool", "extract", GEN], env=env, stdout=subprocess.PIPE,
                        stderr=subprocess.STDOUT, text=True, timeout=120)
     if p.returncode != 0:
-        raise checklib.CheckError("C03 table extractor failed: " + p.stdout[-800:])
+        # the extractor could not evaluate something: not an error of the code under test and not a
+        # failure of the check — keep the committed table (the model then may disagree with the code
+        # in the differential run, which is a real disagreement) and search harder
+        subprocess.run(["git", "-C", checklib.VERIF, "checkout", "--", "lean/Ecal/Gen/C03.lean"],
+                       stdout=subprocess.PIPE, stderr=subprocess.STDOUT)
+        ctx.notes.append("C03: binding table could NOT be extracted from parser.go (" + " ".join(p.stdout.split())[-300:] +
+                         "); the committed table lean/Ecal/Gen/C03.lean was used and the search over the documented "
+                         "grammar's writings (all operator pairs, prefix forms and triples) was run in addition")
+        ctx.c03_amplify = True
 
 
-def search(ctx):
+def post(ctx, cases, gores, model):
+    if getattr(ctx, "c03_amplify", False):
+        found = search(ctx, big=True)
+        if found:
+            checklib.violation(ctx, found, "documented grammar vs. real parser (table not extractable)")
+
+
+def search(ctx, big=False):
     """the table obligations broke: find a concrete expression. The driver prints, for all operator
     pairs and prefix/binary pairs, the minimal writing per the documented grammar (Spec.pr — it does
     not look at the table) with the tree it stands for; the real parser must build that tree."""
     if not os.path.exists(checklib.DRIVER):
         return None
-    p = subprocess.run([checklib.DRIVER, "C03", "specprints"], stdout=subprocess.PIPE, stderr=subprocess.STDOUT,
+    p = subprocess.run([checklib.DRIVER, "C03", "specprints"] + (["big"] if big else []), stdout=subprocess.PIPE, stderr=subprocess.STDOUT,
                        text=True, timeout=300)
     path = os.path.join(ctx.work, "specprints.txt")
     with open(path, "w") as f:
@@ -54,12 +71,16 @@ SPEC = dict(
     shards=16,
     extract=extract,
     search=search,
+    post=post,
     rule=("cases = one-expression programs (some `r := <expr>`): every binary operator on every pair of literal kinds "
           "{num,str,bool,null,list} x several values, every prefix operator on every operand of the universe, all 19x19 operator "
           "pairs x {no brackets, left, right} x operand triples over {num,str,bool,null,var,list}, all 3x19 prefix/binary forms, "
           "all 3x19x19 prefix-in-pair forms, random operator triples, random typed trees to depth 6 with random (also redundant / "
           "missing) brackets and random blank/tab/newline layout; operands include 0, fractions, 1e+308, 2^53+1, a 30-digit integer, "
-          "negative and numeric-looking strings, '', invalid patterns. Compared: tree shape of the real parser (node kinds, no "
+          "negative and numeric-looking strings, '', invalid patterns; plus multi-evaluation cases (payload 'M …'): an expression over "
+          "variables is parsed ONCE and the SAME tree is evaluated under 2-5 environments in a row with every variable rebound "
+          "(patterns of like, operands of every operator), the model evaluating each environment independently — any state kept "
+          "on an AST node between evaluations shows. Compared: tree shape of the real parser (node kinds, no "
           "positions) and value (float bit pattern) or error kind + the operand token it names. Non-trivial = the parsed tree has "
           "at least one operator or list."),
     exhaustive="all operator pairs (19x19x3 bracket forms), all prefix/binary pairs, all operator x literal-kind pairs",
